@@ -30,77 +30,87 @@ FD = "finitedifference.py"
 AX = "xyz"
 
 
-def is_self_attr(node, name=None):
-    return isinstance(node, ast.Attribute) and isinstance(node.value, ast.Name) \
-        and node.value.id == "self" and (name is None or node.attr == name)
+# ---------------------------------------------------------------------------------------------
+# The constructor is partially evaluated (aurelsa.fdpe): the rules read the *values* of the
+# attributes (terms over the parameter table), however the statements are organised.
+# ---------------------------------------------------------------------------------------------
+from ..fdpe import FDPE, Sym, SymbolicBranch, term_to_P, to_term  # noqa: E402
+from ..tensor import NeedConfig, PathEnds, Unsupported  # noqa: E402
+from ..exact import Aff  # noqa: E402
+
+PARAM = ("param", "param")
 
 
-def init_assigns(fn):
+def entry(name):
+    return ("idx", PARAM, (("const", name),))
+
+
+def init_terms(rep):
+    """attribute -> term, after FiniteDifference.__init__(param, fd_order=4)."""
+    fn = rep.sources.function(FD, "FiniteDifference.__init__")
+    names = [a.arg for a in fn.args.args][1:]
+    rep.require(bool(names) and names[0] == "param", "__init__: (param, ...) expected")
+    it = FDPE(rep.sources)
+    kwargs = {n: False for n in names if n in ("verbose", "veryverbose")}
+    if "fd_order" in names:
+        kwargs["fd_order"] = 4
+    try:
+        it.call_function(fn, [Sym(PARAM)], kwargs, "__init__", True, rel=FD)
+    except SymbolicBranch as e:
+        raise AnalysisError(f"FiniteDifference.__init__: {e}")
+    except (Unsupported, PathEnds, NeedConfig) as e:
+        raise AnalysisError(f"FiniteDifference.__init__: cannot be evaluated: {e}")
     out = {}
-    for st in fn.body:
-        if isinstance(st, ast.Assign):
-            for t in st.targets:
-                if is_self_attr(t):
-                    out.setdefault(t.attr, []).append(st)
-                elif isinstance(t, ast.Tuple):
-                    for e in t.elts:
-                        if is_self_attr(e):
-                            out.setdefault(e.attr, []).append(st)
-    return out
+    for k, v in it.attrs.items():
+        try:
+            out[k] = to_term(v)
+        except Unsupported:
+            out[k] = ("opaque", k)
+    return fn, out
 
 
-def coord_atomiser(ax):
-    def f(node):
-        s = unparse(node)
-        if s in (f"self.param['{ax}min']", f"self.{ax}min"):
-            return "min"
-        if s in (f"self.param['d{ax}']", f"self.d{ax}"):
-            return "d"
-        if s in (f"np.arange(self.param['N{ax}'])", f"np.arange(self.N{ax})",
-                 f"np.arange(0, self.param['N{ax}'])"):
-            return "I"
-        return None
-    return f
-
-
-def coordinate_arrays(rep, init):
-    asg = init_assigns(init)
+def coordinate_arrays(rep, init, T):
     for ax in AX:
         name = f"{ax}array"
-        sts = asg.get(name)
-        if not sts or len(sts) != 1:
-            raise AnalysisError(f"__init__: self.{name} must be assigned exactly once")
-        v = sts[0].value
+        t = T.get(name)
+        if t is None:
+            raise AnalysisError(f"__init__: self.{name} is not assigned")
         key = f"{FD}::FiniteDifference.__init__::{name}"
-        ok, why = False, ""
-        if isinstance(v, ast.Call) and unparse(v.func) == "np.linspace":
-            # linspace(min, min + (N-1)*d, N)
-            a = [unparse(x) for x in v.args]
-            ok = len(a) >= 3 and a[2] in (f"self.param['N{ax}']",)
-            why = "np.linspace form not recognised as min + i*d with N points"
-            if ok:
-                try:
-                    at = coord_atomiser(ax)
 
-                    def at2(n, ax=ax, at=at):
-                        if unparse(n) == f"self.param['N{ax}']":
-                            return "N"
-                        return at(n)
-                    lo = poly_eval(v.args[0], {}, at2)
-                    hi = poly_eval(v.args[1], {}, at2)
-                    ok = lo == Poly.atom("min") and hi == Poly.atom("min") + (
-                        Poly.atom("N") - 1) * Poly.atom("d")
+        def atom(x, ax=ax):
+            if x == entry(f"{ax}min"):
+                return "min"
+            if x == entry(f"d{ax}"):
+                return "d"
+            if x == entry(f"N{ax}"):
+                return "N"
+            if x == ("range", Aff(0), entry(f"N{ax}")):
+                return "I"
+            return None
+        ok, why = False, ""
+        if t[0] == "call" and t[1] == ("global", "np.linspace"):
+            # linspace(min, min + (N-1)*d, N)
+            args = [x for x in t[2] if not (isinstance(x, tuple) and x and x[0] == "kw")]
+            why = "np.linspace form not recognised as min + i*d with N points"
+            if len(args) >= 3 and args[2] == entry(f"N{ax}"):
+                try:
+                    from ..tpoly import P
+                    lo = term_to_P(args[0], atom)
+                    hi = term_to_P(args[1], atom)
+                    ok = lo == P.atom("min") and hi == P.atom("min") + (
+                        P.atom("N") - 1) * P.atom("d")
                 except AnalysisError:
                     ok = False
         else:
             try:
-                p = poly_eval(v, {}, coord_atomiser(ax))
-                ok = p == Poly.atom("min") + Poly.atom("I") * Poly.atom("d")
-                why = (f"self.{name} = {norm_src(v)[:70]} is not {ax}min + arange(N{ax})*d{ax}")
+                from ..tpoly import P
+                p = term_to_P(t, atom)
+                ok = p == P.atom("min") + P.atom("I") * P.atom("d")
+                why = f"self.{name} = {t!r} is not {ax}min + arange(N{ax})*d{ax}"[:300]
             except AnalysisError as e:
-                why = (f"self.{name} = {norm_src(v)[:70]}: the number of points is not fixed by "
-                       f"the integer N{ax} ({e})")
-        rep.check(ok, "coordinate-array", key, why, node=sts[0])
+                why = (f"self.{name}: the number of points is not fixed by the integer "
+                       f"N{ax} ({e})")[:300]
+        rep.check(ok, "coordinate-array", key, why, node=init)
 
 
 def arange_lint(rep):
@@ -133,24 +143,22 @@ def arange_lint(rep):
         raise AnalysisError("fewer than 3 np.arange calls found")
 
 
-def extents(rep, init):
-    asg = init_assigns(init)
+def extents(rep, init, T):
     for ax in AX:
+        arr = T.get(f"{ax}array")
         for attr, want, what in (
-                (f"{ax}max", [f"self.{ax}array[-1]"], "the last grid point"),
-                (f"N{ax}", [f"len(self.{ax}array)", f"self.param['N{ax}']",
-                            f"self.{ax}array.shape[0]", f"self.{ax}array.size"],
+                (f"{ax}max", [("idx", arr, (Aff(-1),))], "the last grid point"),
+                (f"N{ax}", [("shape", arr, 0), entry(f"N{ax}"),
+                            ("idx", ("shape0", arr), (Aff(0),)), ("getattr", arr, "size")],
                  "the number of grid points"),
-                (f"{ax}min", [f"self.param['{ax}min']", f"self.{ax}array[0]"],
+                (f"{ax}min", [entry(f"{ax}min"), ("idx", arr, (Aff(0),))],
                  "the first grid point")):
-            sts = asg.get(attr)
-            if not sts:
+            if attr not in T:
                 raise AnalysisError(f"__init__: self.{attr} not assigned")
-            for st in sts:
-                rep.check(unparse(st.value) in want, "extent-provenance",
-                          f"{FD}::FiniteDifference.__init__::{attr}",
-                          f"self.{attr} = {norm_src(st.value)[:60]} is not {what} of the "
-                          f"coordinate array ({' or '.join(want)})", node=st)
+            rep.check(T[attr] in want, "extent-provenance",
+                      f"{FD}::FiniteDifference.__init__::{attr}",
+                      f"self.{attr} = {T[attr]!r} is not {what} of the coordinate array"[:300],
+                      node=init)
 
 
 TOK = re.compile(r"\b(i?)(x|y|z)(min|max|array|center)\b|\b(inverse_d|d|N)(x|y|z)\b|"
@@ -170,71 +178,66 @@ def relabel(text, src, dst):
     return TOK.sub(sub, text)
 
 
-def siblings(rep, init):
-    stmts = [norm_src(st) for st in init.body if isinstance(st, ast.Assign)]
-    sset = set(stmts)
+def relabel_term(t, src, dst):
+    if isinstance(t, str):
+        return relabel(t, src, dst)
+    if isinstance(t, tuple):
+        return tuple(relabel_term(x, src, dst) for x in t)
+    return t
+
+
+def _mentions(t, words):
+    if isinstance(t, str):
+        return any(w in t for w in words)
+    if isinstance(t, tuple):
+        return any(_mentions(x, words) for x in t)
+    return False
+
+
+def siblings(rep, init, T):
+    """The three axes are treated identically: the value of every x-attribute, with x
+    replaced by y (z) in the names of the parameters it is built from, is the value of the
+    y (z) attribute."""
     n = 0
-    for st in init.body:
-        if not isinstance(st, ast.Assign):
-            continue
-        t = norm_src(st)
-        if relabel(t, "x", "y") == t:
-            continue        # no x-axis token
-        if "meshgrid" in t or "cartesian" in t or "spherical" in t:
+    for name, t in sorted(T.items()):
+        if relabel("self." + name, "x", "y") == "self." + name:
+            continue        # no x-axis token in the attribute name
+        if _mentions(t, ("meshgrid", "cartesian", "spherical")):
             continue
         for dst in "yz":
             n += 1
-            twin = relabel(t, "x", dst)
-            rep.check(twin in sset, "axis-siblings",
-                      f"{FD}::FiniteDifference.__init__::{t[:40]}->{dst}",
-                      f"the {dst} counterpart of `{t[:70]}` is missing or different "
-                      f"(expected `{twin[:70]}`)", node=st)
+            other = relabel("self." + name, "x", dst)[5:]
+            want = relabel_term(t, "x", dst)
+            rep.check(T.get(other) == want, "axis-siblings",
+                      f"{FD}::FiniteDifference.__init__::{name}->{dst}",
+                      f"self.{other} is not the {dst} counterpart of self.{name}: "
+                      f"{T.get(other)!r} instead of {want!r}"[:400], node=init)
     if n < 12:
-        raise AnalysisError(f"axis-siblings: only {n} x-axis statements found")
+        raise AnalysisError(f"axis-siblings: only {n} x-axis attributes found")
 
 
-def meshgrid(rep, init):
-    ok = False
-    node = init
-    for st in init.body:
-        if isinstance(st, ast.Assign) and isinstance(st.value, ast.Call) \
-                and unparse(st.value.func) == "np.meshgrid":
-            node = st
-            c = st.value
-            args = [unparse(a) for a in c.args]
-            kw = {k.arg: (k.value.value if isinstance(k.value, ast.Constant) else None)
-                  for k in c.keywords}
-            tg = [unparse(e) for e in st.targets[0].elts] \
-                if isinstance(st.targets[0], ast.Tuple) else []
-            ok = args == ["self.xarray", "self.yarray", "self.zarray"] \
-                and kw.get("indexing") == "ij" and tg == ["self.x", "self.y", "self.z"]
+def meshgrid(rep, init, T):
+    arrs = tuple(T.get(f"{ax}array") for ax in AX)
+    M = ("call", ("global", "np.meshgrid"), arrs + (("kw", "indexing", ("const", "ij")),))
+    ok = all(T.get(ax) == ("idx", M, (Aff(k),)) for k, ax in enumerate(AX))
     rep.check(ok, "meshgrid", f"{FD}::FiniteDifference.__init__::meshgrid",
               "3D coordinates must be self.x, self.y, self.z = np.meshgrid(self.xarray, "
               "self.yarray, self.zarray, indexing='ij') so that every array has shape "
-              "(Nx, Ny, Nz)", node=node)
-    asg = init_assigns(init)
-    st = (asg.get("cartesian_coords") or [None])[0]
-    rep.check(st is not None and unparse(st.value) == "np.array([self.x, self.y, self.z])",
+              f"(Nx, Ny, Nz); self.x = {T.get('x')!r}"[:400], node=init)
+    xyz = tuple(T.get(ax) for ax in AX)
+    rep.check(T.get("cartesian_coords") == ("arr", ("tuple", xyz)),
               "meshgrid", f"{FD}::FiniteDifference.__init__::cartesian_coords",
-              "cartesian_coords must stack (x, y, z) in order", node=st or init)
-    # spherical
-    S = rep.sources
-    c2s = S.function(FD, "FiniteDifference.cartesian_to_spherical")
-    ret = [s for s in c2s.body if isinstance(s, ast.Return)][-1]
-    names = [unparse(e) for e in ret.value.elts] if isinstance(ret.value, ast.Tuple) else []
-    st = None
-    for s in init.body:
-        if isinstance(s, ast.Assign) and "cartesian_to_spherical" in unparse(s.value):
-            st = s
-    tg = [unparse(e).replace("self.", "") for e in st.targets[0].elts] \
-        if st is not None and isinstance(st.targets[0], ast.Tuple) else None
-    # (which returned element is the radius / inclination / azimuth is decided by value in
-    #  spherical_formulas; here: three values, unpacked into the attributes in that order)
-    rep.check(len(names) == 3 and tg == ["r", "theta", "phi"] and st is not None
-              and [unparse(a) for a in st.value.args] == ["self.x", "self.y", "self.z"],
+              "cartesian_coords must stack (x, y, z) in order", node=init)
+    # spherical: three values, computed from (x, y, z), unpacked into r, theta, phi in that
+    # order (which returned element is the radius / inclination / azimuth is decided by value
+    # in spherical_formulas)
+    call = ("mcall", "cartesian_to_spherical", xyz)
+    got = [T.get(nm) for nm in ("r", "theta", "phi")]
+    rep.check(got == [("idx", call, (Aff(k),)) for k in range(3)],
               "spherical-order", f"{FD}::FiniteDifference.__init__::spherical",
-              f"cartesian_to_spherical returns {names}; it is unpacked into {tg}", node=st
-              or init)
+              "self.r, self.theta, self.phi must be the three values returned by "
+              f"cartesian_to_spherical(self.x, self.y, self.z), in that order; got {got!r}"[:400],
+              node=init)
 
 
 def axis_index_pairing(rep):
@@ -271,137 +274,96 @@ def axis_index_pairing(rep):
 
 
 def trims(rep):
+    """cutoffmask{,2} are evaluated on an array of each rank: the result must be the argument
+    cut by k*mask_len on both sides of every axis, whatever the mode of the object."""
     S = rep.sources
+    m = Aff.sym("m")
     for name, k in (("cutoffmask", 1), ("cutoffmask2", 2)):
         fn = S.function(FD, "FiniteDifference." + name)
         arg = fn.args.args[1].arg
-        body = [st for st in fn.body if not (isinstance(st, ast.Expr)
-                                             and isinstance(st.value, ast.Constant))]
         key = f"{FD}::FiniteDifference.{name}"
-        ok = len(body) == 1 and isinstance(body[0], ast.If)
-        rep.check(ok, "symmetric-trim", key + "::shape",
-                  "the helper must consist of one if/elif chain on the rank of its argument "
-                  "(no mode-dependent early return)", node=fn)
-        if not ok:
-            continue
-        node = body[0]
-        ranks = []
-        while isinstance(node, ast.If):
-            t = node.test
-            r = None
-            if isinstance(t, ast.Compare) and unparse(t.left) in (f"len({arg}.shape)",
-                                                                  f"{arg}.ndim") \
-                    and isinstance(t.ops[0], ast.Eq):
-                c = const_value(t.comparators[0])
-                r = int(c) if c is not None else None
-            ret = node.body[0] if len(node.body) == 1 and isinstance(node.body[0], ast.Return) \
-                else None
-            good = False
-            if r is not None and ret is not None and isinstance(ret.value, ast.Subscript) \
-                    and unparse(ret.value.value) == arg:
-                sl = ret.value.slice
-                sls = list(sl.elts) if isinstance(sl, ast.Tuple) else [sl]
-                good = len(sls) == r and all(isinstance(x, ast.Slice) for x in sls)
-                for x in sls:
-                    if not good:
-                        break
-                    lo = _mult_of_mask(x.lower)
-                    hi = _mult_of_mask(x.upper)
-                    good = lo == k and hi == -k and x.step is None
-            ranks.append(r)
-            rep.check(good, "symmetric-trim", f"{key}::rank{r}",
-                      f"rank-{r} branch must return {arg}[{k}*mask_len:-{k}*mask_len] on each "
-                      f"of its {r} axes", node=node)
-            if len(node.orelse) == 1 and isinstance(node.orelse[0], ast.If):
-                node = node.orelse[0]
-            else:
-                tail = [x for x in node.orelse if not isinstance(x, ast.Pass)]
-                none_ret = len(tail) == 1 and isinstance(tail[0], ast.Return) and (
-                    tail[0].value is None or (isinstance(tail[0].value, ast.Constant)
-                                              and tail[0].value.value is None))
-                rep.check(not tail or none_ret, "symmetric-trim", key + "::else",
-                          "unexpected fall-through branch", node=node)
+        F = ("param", arg)
+        handled = []
+        shape_ok = True
+        for r in (1, 2, 3, 4, 0):
+            it = FDPE(S, attrs={"mask_len": m, "verbose": False})
+            it.ranks[F] = r
+            why = ""
+            v = None
+            try:
+                v = it.run("FiniteDifference." + name, [Sym(F)])
+            except SymbolicBranch as e:
+                why = str(e)
+            except NeedConfig as q:
+                why = f"the path taken depends on self.{q.q}"
+            except PathEnds as e:
+                why = f"raises: {e}"
+            except Unsupported as e:
+                raise AnalysisError(f"{name}: cannot be evaluated: {e}")
+            if why:
+                shape_ok = False
+                rep.violation("symmetric-trim", key + "::shape",
+                              f"the helper must only depend on the rank of its argument: {why}",
+                              node=fn)
                 break
-        rep.check(ranks == [1, 2, 3], "symmetric-trim", key + "::ranks",
-                  f"ranks handled: {ranks}", node=fn)
-
-
-def _mult_of_mask(node):
-    """node == c * self.mask_len  ->  c (int), else None"""
-    if node is None:
-        return None
-
-    def at(n):
-        return "m" if unparse(n) == "self.mask_len" else None
-    try:
-        p = poly_eval(node, {}, at)
-    except AnalysisError:
-        return None
-    if set(p.m) == {("m",)}:
-        c = p.m[("m",)]
-        return int(c) if c.denominator == 1 else None
-    return None
+            t = to_term(v) if v is not None else None
+            if r not in (1, 2, 3):
+                rep.check(t is None or t == ("const", None), "symmetric-trim", key + "::else",
+                          f"unexpected result for an array of rank {r}: {t!r}"[:300], node=fn)
+                continue
+            cuts = None
+            if t is not None and t[0] == "slice" and t[1] == F and t[4] == 1:
+                cuts = [(t[2], t[3])]
+            elif t is not None and t[0] == "idx" and t[1] == F and all(
+                    isinstance(x, tuple) and x and x[0] == "sliceobj" and x[3] is None
+                    for x in t[2]):
+                cuts = [(x[1], x[2]) for x in t[2]]
+            good = cuts is not None and len(cuts) == r and all(
+                lo == m.scale(k) and hi == m.scale(-k) for lo, hi in cuts)
+            if t is not None:
+                handled.append(r)
+            rep.check(good, "symmetric-trim", f"{key}::rank{r}",
+                      f"for a rank-{r} array the helper must return {arg}[{k}*mask_len:"
+                      f"-{k}*mask_len] on each of its {r} axes; got {t!r}"[:400], node=fn)
+        if shape_ok:
+            rep.ok("symmetric-trim", key + "::shape")
+            rep.check(handled == [1, 2, 3], "symmetric-trim", key + "::ranks",
+                      f"ranks handled: {handled}", node=fn)
 
 
 def spherical_formulas(rep):
-    """The written form of the Cartesian -> spherical map: r = sqrt(x^2+y^2+z^2), the
-    inclination is the angle from the +z axis over its full range [0, pi] (arccos(z/r) or
-    arctan2(rho, z)), the azimuth sign(y) arccos(x/rho).  (The numerical round trip itself is
-    trigonometry and is not decided; an inclination computed through arcsin(rho/r), which only
-    covers [0, pi/2], is a different function, not a rounding matter.)"""
+    """The Cartesian -> spherical map, by value: r = sqrt(x^2+y^2+z^2), the inclination is
+    the angle from the +z axis over its full range [0, pi] (arccos(z/r) or arctan2(rho, z)),
+    the azimuth sign(y) arccos(x/rho).  (The numerical round trip itself is trigonometry and
+    is not decided; an inclination computed through arcsin(rho/r), which only covers
+    [0, pi/2], is a different function, not a rounding matter.)"""
     from .. import symdiff
-    from ..tpoly import P, asP
+    from ..tpoly import P
     S = rep.sources
     fn = S.function(FD, "FiniteDifference.cartesian_to_spherical")
-    env = {a.arg: P.atom(a.arg) for a in fn.args.args[1:]}
+    names = [a.arg for a in fn.args.args[1:]]
+    rep.require(len(names) == 3, "cartesian_to_spherical: (x, y, z) expected")
+    it = FDPE(S, attrs={"verbose": False})
+    try:
+        v = it.run("FiniteDifference.cartesian_to_spherical",
+                   [Sym(("param", n)) for n in names])
+    except (SymbolicBranch, NeedConfig, Unsupported, PathEnds) as e:
+        raise AnalysisError(f"cartesian_to_spherical: cannot be evaluated: {e}")
+    if not isinstance(v, (tuple, list)) or len(v) != 3:
+        raise AnalysisError("cartesian_to_spherical: three returned values expected")
 
-    def ev(node):
-        c = const_value(node)
-        if c is not None:
-            return asP(c)
-        if isinstance(node, ast.Name):
-            if node.id not in env:
-                raise AnalysisError("cartesian_to_spherical: unbound " + node.id)
-            return env[node.id]
-        if isinstance(node, ast.UnaryOp) and isinstance(node.op, ast.USub):
-            return -ev(node.operand)
-        if isinstance(node, ast.BinOp):
-            a, b = ev(node.left), ev(node.right)
-            if isinstance(node.op, ast.Add):
-                return a + b
-            if isinstance(node.op, ast.Sub):
-                return a - b
-            if isinstance(node.op, ast.Mult):
-                return a * b
-            if isinstance(node.op, ast.Div):
-                return a * b.pow(-1)
-            if isinstance(node.op, ast.Pow):
-                return symdiff.power(a, b)
-        if isinstance(node, ast.Call):
-            f = unparse(node.func)
-            args = [ev(a) for a in node.args]
-            if f == "maths.safe_division":
-                return args[0] * args[1].pow(-1)
-            if f.startswith("np."):
-                return symdiff.fn_atom(f[3:], args)
-        if isinstance(node, ast.Attribute) and unparse(node) == "np.pi":
-            return P.atom("pi")
-        raise AnalysisError("cartesian_to_spherical: expression not understood: "
-                            + unparse(node)[:60])
-    for st in fn.body:
-        if isinstance(st, ast.Assign) and isinstance(st.targets[0], ast.Name):
-            try:
-                env[st.targets[0].id] = ev(st.value)
-            except AnalysisError:
-                if st.targets[0].id in ("r", "theta", "phi"):
-                    raise
-    rets = [st for st in ast.walk(fn) if isinstance(st, ast.Return)]
-    if len(rets) != 1 or not isinstance(rets[0].value, ast.Tuple) \
-            or len(rets[0].value.elts) != 3:
-        raise AnalysisError("cartesian_to_spherical: a single `return r, theta, phi` expected")
-    for nm, e in zip(("r", "theta", "phi"), rets[0].value.elts):
-        env[nm] = ev(e)       # by position: the order of the returned values is the contract
-    x, y, z = (P.atom(a.arg) for a in fn.args.args[1:])
+    def atom(t):
+        if isinstance(t, tuple) and len(t) == 2 and t[0] == "param" and t[1] in names:
+            return "xyz"[names.index(t[1])]
+        return None
+    env = {}
+    for nm, e in zip(("r", "theta", "phi"), v):
+        # by position: the order of the returned values is the contract
+        t = to_term(e)
+        while t[0] == "masked":
+            t = t[1]          # fix-ups on the half-line y = 0, x < 0 (a set of measure zero)
+        env[nm] = term_to_P(t, atom)
+    x, y, z = P.atom("x"), P.atom("y"), P.atom("z")
     r2 = x * x + y * y + z * z
     rho2 = x * x + y * y
     key = f"{FD}::FiniteDifference.cartesian_to_spherical"
@@ -433,12 +395,12 @@ def run(rep):
         "(trigonometry) is not decided.")
     rep.assume("mask_len >= 1 for every order (C07 dispatch rule)")
     S = rep.sources
-    init = S.function(FD, "FiniteDifference.__init__")
-    coordinate_arrays(rep, init)
+    init, T = init_terms(rep)
+    coordinate_arrays(rep, init, T)
     arange_lint(rep)
-    extents(rep, init)
-    siblings(rep, init)
-    meshgrid(rep, init)
+    extents(rep, init, T)
+    siblings(rep, init, T)
+    meshgrid(rep, init, T)
     axis_index_pairing(rep)
     trims(rep)
     spherical_formulas(rep)
